@@ -499,6 +499,18 @@ class Handler:
 
     def test(self, e, w):
         """[(truth, world)] - unknown tests go both ways."""
+        # a handler that decides by what the mapper has seen elsewhere (state kept on
+        # self, or a local read from it) is not a function of the node alone: not decided
+        for x in ast.walk(e):
+            src = x
+            if isinstance(x, ast.Name) and isinstance(w.get(x.id, None), tuple) \
+                    and w.get(x.id)[0] == "state":
+                raise AnalysisError(f"{self.f.qualname}: the test {norm(e)[:50]} consults state "
+                                    f"kept by the mapper")
+            if isinstance(src, ast.Attribute) and dotted(src.value) == "self" \
+                    and not any(isinstance(c_, ast.Call) and c_.func is src for c_ in ast.walk(e)):
+                raise AnalysisError(f"{self.f.qualname}: the test {norm(e)[:50]} consults state "
+                                    f"kept by the mapper")
         outs = []
         for v, w2 in self.ev(e, w):
             t = self.truth(v)
@@ -532,6 +544,10 @@ class Handler:
 
     def exec_stmt(self, n, w):
         a = n.ast
+        if isinstance(a, ast.Assign) and isinstance(a.value, ast.Attribute) \
+                and dotted(a.value.value) == "self" and len(a.targets) == 1 \
+                and isinstance(a.targets[0], ast.Name):
+            return [w.set(a.targets[0].id, ("state", a.value.attr))]
         if isinstance(a, ast.Assign):
             outs = []
             for v, w2 in self.ev(a.value, w):
